@@ -161,6 +161,14 @@ class Runner:
                 if "{DAV:}collection" not in rt2:
                     self.viol(f"{self.where()}/{src}/collection-href-addresses-non-collection", f"{target}: href {href!r} -> {t} is not a collection")
                 norm = t if t.endswith("/") else t + "/"
+                # the type a listing reports for a collection: what it was created as; home sets are plain
+                for cp, kd in list(self.kinds.items()) + [(hp, "home-set") for hp in ("/user/calendars/", "/user/contacts/")]:
+                    if w.url(cp) != norm:
+                        continue
+                    self.res.count("listed_resourcetype_checks")
+                    is_cal, is_ab = (X.P_RT_CAL in rt), (X.P_RT_AB in rt)
+                    if (kd == "calendar" and not is_cal) or (kd == "addressbook" and not is_ab) or (kd == "home-set" and (is_cal or is_ab)) or (kd in ("calendar", "addressbook") and is_cal and is_ab):
+                        self.viol(f"{self.where()}/{src}/listed-resourcetype-wrong/{kd}", f"{target}: {href!r} ({kd}) is listed with resourcetype {rt!r}")
                 if norm == w.url(colpath):
                     selfseen += 1
                 else:
@@ -190,6 +198,32 @@ class Runner:
         extra = len(unresolved) - sum(1 for nm in members if nm not in addressed)
         if extra > 0:
             self.viol(f"{self.where()}/{src}/surplus-href", f"{target}: {extra} emitted href(s) address nothing: {unresolved[:4]!r}")
+
+    def check_listing_hrefprops(self, colpath):
+        """href-valued properties of the *children* in a Depth 1 listing with an explicit prop list"""
+        w = self.w
+        target = w.url(colpath)
+        s, r = self.req("propfind1-hrefprops", "PROPFIND", target, [("Depth", "1"), X.XML_CT], X.propfind(["{DAV:}add-member", X.P_RESOURCETYPE, X.P_CUP]))
+        if r.status != 207:
+            return
+        try:
+            rs, _ = X.parse_multistatus(r.body)
+        except X.MalformedXML:
+            return
+        for resp in rs:
+            rt = X.resourcetypes(resp) or []
+            if "{DAV:}collection" not in rt:
+                continue
+            own = resolve(target, resp.href or "")
+            for h in X.prop_hrefs(resp, "{DAV:}add-member") or []:
+                t = resolve(target, h)
+                self.res.evaluations += 1
+                self.res.count("hrefs_dereferenced")
+                self.res.count("hrefs:add-member-in-listing")
+                self.res.seen(self.where(), "add-member", own == target)
+                if t is None or own is None or urllib.parse.unquote(t).rstrip("/") != urllib.parse.unquote(own).rstrip("/"):
+                    self.viol(f"{self.where()}/propfind1-hrefprops/add-member-of-child-addresses-another-collection",
+                              f"PROPFIND Depth 1 {target}: the response for {resp.href!r} carries add-member {h!r} (resolves to {t!r}): a POST there would not add to that collection")
 
     def check_depth0(self, target, kind_is_collection, src):
         s, r = self.req(src, "PROPFIND", target, [("Depth", "0"), X.XML_CT], X.propfind([X.P_RESOURCETYPE]))
@@ -355,7 +389,8 @@ def run_shard(args):
         w.start()
         cfg = {k: args[k] for k in ("fe", "prefix", "seed", "names")}
         run = Runner(w, res, rng, cfg)
-        layout = [("/user/calendars/cal0/", "calendar"), ("/user/contacts/ab0/", "addressbook"), ("/user/calendars/pl0/", "plain"), ("/user/calendars/pl0/nested/", "plain"), ("/top/", "plain")]
+        layout = [("/user/calendars/cal0/", "calendar"), ("/user/contacts/ab0/", "addressbook"), ("/user/calendars/pl0/", "plain"), ("/user/calendars/pl0/nested/", "plain"), ("/top/", "plain"),
+                  ("/user/calendars/cal0/sub/", "plain"), ("/user/contacts/ab0/sub/", "plain")]
         for p, kind in layout:
             s, r = w.mkcol(p, kind)
             if not W.World.success(s.eff):
@@ -402,7 +437,15 @@ def run_shard(args):
                 run.check_report(p, kind, "query")
                 run.check_post_location(p, kind)
             run.check_misc_hrefs(p)
-        run.check_listing("/user/calendars/", True) if "/user/calendars/" in run.members else None
+        # the home sets: the collections created above plus the defaults of --defaults
+        for hp, dp, dk in (("/user/calendars/", "/user/calendars/calendar/", "calendar"), ("/user/contacts/", "/user/contacts/addressbook/", "addressbook")):
+            run.members.setdefault(dp, {})
+            run.kinds[dp] = dk
+            run.members[hp] = {}
+            run.check_listing(hp, True)
+            del run.members[hp]
+        for p in ("/user/calendars/", "/user/contacts/", "/user/calendars/pl0/", "/user/calendars/cal0/"):
+            run.check_listing_hrefprops(p)
         run.check_prop_hrefs()
         res.sample({"config": cfg, "names": {p: list(m)[:6] for p, m in run.members.items()}})
     except Exception:
@@ -433,7 +476,7 @@ def check(tier, seed, t0):
               ("share of generated names stored (percent)", 100 * stored // max(1, c.get("names_tried", 0)), 80)]
     for f in ("colon", "question", "hash", "semicolon", "percent", "space", "plus", "nonascii", "other-special", "pct-escape-literal"):
         guards.append(("stored names with feature " + f, c.get("stored:" + f, 0), 3))
-    for src in ("propfind1", "propfind1-noslash", "sync", "multiget", "query", "post-location", "proppatch-response", "propfind-404-body", "precondition-error-body", "href-valued-property"):
+    for src in ("propfind1", "propfind1-noslash", "sync", "multiget", "query", "post-location", "proppatch-response", "propfind-404-body", "precondition-error-body", "href-valued-property", "add-member-in-listing"):
         guards.append(("hrefs from " + src, c.get("hrefs:" + src, 0), 10))
     return common.finish(PROP, tier, seed, "exploration", merged, failures, RULE, t0, guards=guards,
                          assumptions=["clients percent-encode every octet outside the unreserved set when they build a member URL", "relative hrefs are resolved with urllib.parse.urljoin (RFC 3986 section 5)",
